@@ -852,7 +852,7 @@ func genC04(o *out, r *rng, thorough bool) {
 	for _, n := range sizes {
 		layouts := []int{0, 1, 2, 3, 4, 5, 6}
 		if n > 5000 {
-			layouts = []int{0, 5, 4}
+			layouts = []int{0, 5} // the model driver and the judge spend minutes on each 70 000-segment answer
 		}
 		for _, lay := range layouts {
 			pts := layoutPts(r, n, lay)
@@ -870,7 +870,7 @@ func genC04(o *out, r *rng, thorough bool) {
 				}
 				nq := 8
 				if n > 5000 {
-					nq = 4
+					nq = 3
 				}
 				for qi := 0; qi < nq; qi++ {
 					var q [4]string
@@ -905,6 +905,9 @@ func genC04(o *out, r *rng, thorough bool) {
 						q = [4]string{strconv.Itoa(1 << 25), strconv.Itoa(1 << 25), strconv.Itoa(1<<25 + 16), strconv.Itoa(1<<25 + 16)}
 					}
 					stops := []int{0, 1, 2, 5}
+					if n > 5000 {
+						stops = []int{0, 2}
+					}
 					for _, st := range stops {
 						for _, id := range ids {
 							o.op("search %s 0 %s %s %s %s %d", id, q[0], q[1], q[2], q[3], st)
